@@ -120,7 +120,9 @@ class Registry:
                 return TSet(self._parse(elts[0]))
             if low in ("list", "sequence", "iterable", "iterator", "generator"):
                 return TSeq(self._parse(elts[0]))
-            if low in ("dict", "mapping", "defaultdict"):
+            if low == "defaultdict":
+                return Ty("dict", (self._parse(elts[0]), self._parse(elts[1])), "dd")   # reads of missing keys yield the factory value
+            if low in ("dict", "mapping"):
                 return TDict(self._parse(elts[0]), self._parse(elts[1]))
             if low == "tuple":
                 if len(elts) == 2 and isinstance(elts[1], ast.Constant) and elts[1].value is Ellipsis:
@@ -148,6 +150,8 @@ class Registry:
 
     # -- sorts ----------------------------------------------------------
     def sort(self, ty):
+        if ty.kind == "dict" and ty.name:
+            return self.sort(Ty("dict", ty.args))      # defaultdict shares the sort of dict
         if ty in self._sorts:
             return self._sorts[ty]
         s = self._mk_sort(ty)
@@ -157,7 +161,7 @@ class Registry:
     def _sname(self, ty):
         if ty.kind in ("int", "bool", "str", "none"):
             return ty.kind
-        if ty.name:
+        if ty.name and ty.kind != "dict":
             return ty.name
         return ty.kind + "_" + "_".join(self._sname(a) for a in ty.args)
 
